@@ -120,3 +120,36 @@ package ztest
 //@     invariant nonEmpty ==> GapSame(sm.a, sm.b, 0, 0, codes[0].I1, codes[0].J1)
 //@     invariant nonEmpty ==> GapSame(sm.a, sm.b, codes[len(codes)-1].I2, codes[len(codes)-1].J2, len(sm.a), len(sm.b))
 //@     invariant forall(q, int, 0 <= q && q < len(groups) ==> !(len(groups[q]) == 1 && groups[q][0].Tag == 'e'))
+
+// findLongestMatch, thin contract: every index it uses is in range and the
+// block it returns lies inside the two windows. That the block's lines are
+// equal (and that it is a longest one) is NOT claimed here: the comparison
+// runs through the function-valued field cmp and the line index b2j is a map
+// of slices; that part stays with the bounded harness.
+//@ func (sm *ztest.sequenceMatcher) findLongestMatch(alo int, ahi int, blo int, bhi int) (r match)
+//@   mathint
+//@   requires 0 <= alo && alo <= ahi && ahi <= len(sm.a) && 0 <= blo && blo <= bhi && bhi <= len(sm.b)
+//@   requires len(sm.a) <= 576460752303423488 && len(sm.b) <= 576460752303423488
+//@   ensures alo <= r.A && r.A + r.Size <= ahi && blo <= r.B && r.B + r.Size <= bhi && r.Size >= 0      [C20] "the block found lies inside the two windows"
+//@   ensures sm.a == old(sm.a) && sm.b == old(sm.b)
+//@   loop 1 "for i, s := range m.b"
+//@     invariant sm.a == old(sm.a) && sm.b == old(sm.b)
+//@     invariant forall(s, string, forall(t, int, 0 <= t && t < len(b2j[s]) ==> 0 <= b2j[s][t] && b2j[s][t] < len(sm.b)))
+//@   loop 2 "for i := alo; i != ahi; i++"
+//@     invariant sm.a == old(sm.a) && sm.b == old(sm.b)
+//@     invariant alo <= i && i <= ahi
+//@     invariant allocated(ref(j2len))
+//@     invariant alo <= besti && besti + bestsize <= i && blo <= bestj && bestj + bestsize <= bhi && bestsize >= 0
+//@     invariant forall(j, int, has(j2len, j) ==> j2len[j] >= 1 && j2len[j] <= i - alo && j - j2len[j] + 1 >= blo && j < bhi)
+//@   loop 3 "for _, j := range b2j[m.a[i]]"
+//@     invariant sm.a == old(sm.a) && sm.b == old(sm.b)
+//@     invariant alo <= besti && besti + bestsize <= i + 1 && blo <= bestj && bestj + bestsize <= bhi && bestsize >= 0
+//@     invariant ref(j2len) != ref(newj2len)
+//@     invariant forall(j, int, has(j2len, j) ==> j2len[j] >= 1 && j2len[j] <= i - alo && j - j2len[j] + 1 >= blo && j < bhi)
+//@     invariant forall(j, int, has(newj2len, j) ==> newj2len[j] >= 1 && newj2len[j] <= i + 1 - alo && j - newj2len[j] + 1 >= blo && j < bhi)
+//@   loop 4 "for besti > alo && bestj > blo && m.cmp(m.a[besti-1], m.b[bestj-1])"
+//@     invariant sm.a == old(sm.a) && sm.b == old(sm.b)
+//@     invariant alo <= besti && besti + bestsize <= ahi && blo <= bestj && bestj + bestsize <= bhi && bestsize >= 0
+//@   loop 5 "for besti+bestsize < ahi && bestj+bestsize < bhi && m.cmp(m.a[besti+bestsize], m.b[bestj+bestsize])"
+//@     invariant sm.a == old(sm.a) && sm.b == old(sm.b)
+//@     invariant alo <= besti && besti + bestsize <= ahi && blo <= bestj && bestj + bestsize <= bhi && bestsize >= 0
